@@ -1,6 +1,7 @@
 open BinNums
 open BinPosDef
 open Datatypes
+open Decimal
 
 module Pos :
  sig
@@ -34,4 +35,10 @@ module Pos :
   val compare : positive -> positive -> comparison
 
   val eqb : positive -> positive -> bool
+
+  val of_succ_nat : nat -> positive
+
+  val to_little_uint : positive -> uint
+
+  val to_uint : positive -> uint
  end
